@@ -156,6 +156,17 @@ func (mediaType *MediaType) Validate(ctx context.Context, opts ...ValidationOpti
 		}
 	}
 
+	encodingNames := make([]string, 0, len(mediaType.Encoding))
+	for name := range mediaType.Encoding {
+		encodingNames = append(encodingNames, name)
+	}
+	sort.Strings(encodingNames)
+	for _, name := range encodingNames {
+		if err := mediaType.Encoding[name].Validate(ctx); err != nil {
+			return fmt.Errorf("invalid encoding %q: %w", name, err)
+		}
+	}
+
 	return validateExtensions(ctx, mediaType.Extensions)
 }
 
